@@ -40,4 +40,10 @@ CHECKS = {
   "text": "Model: CProgress/DProgress/FlushDecodable hold in every state of Stream.tla and (thorough) every finite stream finishes under strongly fair callers. Code: every recorded call is checked for progress; at every flush that reported completion an independent decoder run to quiescence must regenerate exactly the bytes consumed; a hint-following decode must consume exactly each frame and never ask beyond it; MT + LDM histories with flushed pieces straddling the job size make the round buffer wrap; a call that does not return within 60 s is a blocked call (re-run to confirm).",
   "note": "Trusted: TLC; harness/streamdrv.c (byte comparison, independent frame/block-header walker); ASan/UBSan on explored histories. Histories follow the documented client rules. Bit-level entropy fidelity is observed (round trip), not modelled. Sizes: sources up to 200 KB (quick) / 2.5 MB (MT, thorough), buffers down to 1 byte.",
  },
+ "C19": {
+  "level": "model_checking",
+  "technique": "TLA+ model of the CLI's file-system protocol with a Crash step after every step (Cli.tla, TLC, all flag combinations); strace system-call traces of the real CLI validated by TLC against CliTrace.tla after every system call; real kills at every k-th system call by fault injection",
+  "text": "Cli.tla gives the order of open/unlink/create/write/close/remove steps of one (source, destination) pair and TLC checks DataSafe, NoClobber, CleanFail and Verdict in every state including every crash point, for all flag combinations; the wrong order (remove source before closing destination) is shown to violate DataSafe. The real CLI built from the tree runs under strace for the invocation grammar (compress/decompress/test x --rm x -f x file/-o/-c x 1-2 inputs x pre-existing destination x corrupt, truncated, trailing-garbage and junk inputs x -T/--long/--sparse/--no-sparse); its system calls on the user's files are trace lines on which TLC evaluates the contract after each call (= at each kill point; only bytes seen in write calls are credited). Selected --rm runs are really killed before each k-th system call and the directory is inspected with a library-level oracle. Sparse and non-sparse (and -f over an existing file) decoding of zero-run layouts around the 32 KiB / 8-byte boundaries must give identical bytes; exit status must equal the library's verdict.",
+  "note": "Trusted: TLC, strace (tracing and SIGKILL injection at syscall entry), harness/zfile.c as library-level oracle. Not covered: gzip/xz/lz4 formats, interactive prompts, --output-dir-* naming, signals other than SIGKILL, power loss (no fsync reasoning).",
+ },
 }
